@@ -258,7 +258,7 @@ func GenRoutes(t *rapid.T, o *RouteOpts) *RouteSpec {
 				}
 				hasJSON = true
 				st.Name = usedParam(usedP, "fName")
-				st.Type = []string{"uint32", "Filter", "[]int", "Item", "IdItem"}[rapid.IntRange(0, 4).Draw(t, "jsonType")]
+				st.Type = []string{"uint32", "Filter", "[]int", "Item", "IdItem", "string", "bool", "Index", "string"}[rapid.IntRange(0, 8).Draw(t, "jsonType")]
 			}
 			h.Stmts = append(h.Stmts, st)
 		}
